@@ -5,6 +5,7 @@
 -/
 import YaraModel.Lemmas.Limits
 set_option linter.unusedVariables false
+set_option linter.unusedSectionVars false
 namespace YaraModel.Limits
 
 /-- What a (sub)emission that needs `n` split ids may do from context `c`. -/
@@ -14,18 +15,21 @@ def EmitSpec (MAX n : Nat) (c : Emit) : Except Err Emit → Prop
   | .error .reTooLarge => True
   | .error _ => False
 
+variable {G : Guards} (hG : G.Sound)
+
 theorem EmitSpec.pure (MAX : Nat) (c c' : Emit) (hc : c.split ≤ MAX) (h : c'.split = c.split) :
     EmitSpec MAX 0 c (.ok c') := by
   simp [EmitSpec, h, hc]
 
-theorem EmitSpec.split (MAX : Nat) (c : Emit) (hc : c.split ≤ MAX) : EmitSpec MAX 1 c (emitSplit MAX c) := by
-  cases h : emitSplit MAX c with
+include hG in
+theorem EmitSpec.split (MAX : Nat) (c : Emit) (hc : c.split ≤ MAX) : EmitSpec MAX 1 c (emitSplit G MAX c) := by
+  cases h : emitSplit G MAX c with
   | ok c' =>
-    have h1 := emitSplit_ok MAX c c' h
-    have h2 := emitSplit_le MAX c c' hc h
+    have h1 := emitSplit_ok hG MAX c c' h
+    have h2 := emitSplit_le hG MAX c c' hc h
     exact ⟨h1.1, h2⟩
   | error e =>
-    have := emitSplit_err MAX c e hc h
+    have := emitSplit_err hG MAX c e hc h
     rw [this.1]
     simp [EmitSpec]; omega
 
@@ -65,7 +69,8 @@ theorem EmitSpec.whenE {MAX n : Nat} {c : Emit} {p : Prop} [Decidable p] {f : Em
   · rename_i hp; exact hx hp
   · exact EmitSpec.pure MAX c c hc rfl
 
-theorem emit_spec (MAX : Nat) (r : Re) (c : Emit) (hc : c.split ≤ MAX) : EmitSpec MAX (splits r) c (emit MAX r c) := by
+include hG in
+theorem emit_spec (MAX : Nat) (r : Re) (c : Emit) (hc : c.split ≤ MAX) : EmitSpec MAX (splits r) c (emit G MAX r c) := by
   induction r generalizing c with
   | lit => exact EmitSpec.pure MAX c _ hc rfl
   | any => exact EmitSpec.pure MAX c _ hc rfl
@@ -76,17 +81,17 @@ theorem emit_spec (MAX : Nat) (r : Re) (c : Emit) (hc : c.split ≤ MAX) : EmitS
   | plus a iha =>
     simp only [emit, splits]
     refine EmitSpec.bind rfl (iha c hc) (fun c1 h1 _ => ?_)
-    exact EmitSpec.guard (EmitSpec.split MAX c1 h1)
+    exact EmitSpec.guard (EmitSpec.split hG MAX c1 h1)
   | star a iha =>
     simp only [emit, splits]
-    refine EmitSpec.bind rfl (EmitSpec.split MAX c hc) (fun c1 h1 _ => ?_)
+    refine EmitSpec.bind rfl (EmitSpec.split hG MAX c hc) (fun c1 h1 _ => ?_)
     refine EmitSpec.bind (n2 := 0) rfl (iha c1 h1) (fun c2 h2 _ => ?_)
     refine EmitSpec.guard ?_
     refine EmitSpec.guard ?_
     exact EmitSpec.pure MAX c2 _ h2 rfl
   | alt a b iha ihb =>
     simp only [emit, splits]
-    refine EmitSpec.bind (n1 := 1) (n2 := splits a + splits b) (by omega) (EmitSpec.split MAX c hc) (fun c1 h1 _ => ?_)
+    refine EmitSpec.bind (n1 := 1) (n2 := splits a + splits b) (by omega) (EmitSpec.split hG MAX c hc) (fun c1 h1 _ => ?_)
     refine EmitSpec.bind rfl (iha c1 h1) (fun c2 h2 _ => ?_)
     refine EmitSpec.guard ?_
     have h3 : ({ c2 with size := c2.size + 3 } : Emit).split ≤ MAX := h2
@@ -111,7 +116,7 @@ theorem emit_spec (MAX : Nat) (r : Re) (c : Emit) (hc : c.split ≤ MAX) : EmitS
       · exact iha { c1 with size := c1.size + repeatArgsSize } h1'
       · exact EmitSpec.pure MAX c22 _ h22 rfl
     refine EmitSpec.bind rfl ?_ (fun c3 h3 _ => ?_)
-    · exact EmitSpec.whenE h2 (fun _ => EmitSpec.split MAX c2 h2)
+    · exact EmitSpec.whenE h2 (fun _ => EmitSpec.split hG MAX c2 h2)
     refine EmitSpec.bind rfl ?_ (fun c4 h4 _ => ?_)
     · exact EmitSpec.whenE h3 (fun _ => iha c3 h3)
     · refine EmitSpec.guard ?_
